@@ -181,7 +181,8 @@ func F(a0 int) bool {
 	return s < t
 }
 `},
-	{name: "string-concatenation-then-equality", fns: intFn, src: `
+	{name: "string-concatenation-result-is-not-a-string-item", fns: []directedFn{
+		{name: "F", params: []ty{tInt}, ret: tInt}, {name: "G", params: []ty{tInt}, ret: tInt}}, src: `
 func F(a0 int) int {
 	s := "x"
 	s += "y"
@@ -200,9 +201,8 @@ func F(a0 int) int {
 	}
 	return r
 }
-`},
-	{name: "string-concatenation-as-map-key", fns: intFn, src: `
-func F(a0 int) int {
+
+func G(a0 int) int {
 	m := map[string]int{}
 	s := "x"
 	s += "y"
@@ -301,21 +301,6 @@ func F(a0 int) int {
 	return g0 + a0
 }
 `},
-	{name: "switch-early-default-swap:fallthrough", fns: intFn, src: `
-func F(a0 int) int {
-	r := 0
-	switch a0 {
-	case 0:
-		r += 1
-		fallthrough
-	default:
-		r += 10
-	case 1:
-		r += 100
-	}
-	return r
-}
-`},
 	{name: "defer-without-recover-lets-panic-through", fns: intFn, reset: "\tglog = 0", src: `
 var glog = 0
 
@@ -335,7 +320,8 @@ func F(a0 int) int {
 	return work(a0) + 100
 }
 `},
-	{name: "switch-early-default-swap:case-order", fns: intFn, src: `
+	{name: "switch-with-early-default-reorders-clauses", fns: []directedFn{
+		{name: "F", params: []ty{tInt}, ret: tInt}, {name: "G", params: []ty{tInt}, ret: tInt}}, src: `
 func F(a0 int) int {
 	r := 0
 	switch {
@@ -345,6 +331,20 @@ func F(a0 int) int {
 		r = 10
 	case a0 >= 2:
 		r = 100
+	}
+	return r
+}
+
+func G(a0 int) int {
+	r := 0
+	switch a0 {
+	case 0:
+		r += 1
+		fallthrough
+	default:
+		r += 10
+	case 1:
+		r += 100
 	}
 	return r
 }
